@@ -892,15 +892,23 @@ func Generate(t Tape, p *Profile) *Program {
 	}
 	g.push()
 	fc := &fctx{}
-	n := 3 + t.Choose(p.MaxStmts)
 	var body []Stmt
 	// always-present variables, so that expressions never have to be constant-only
 	g.declare(&varInfo{name: "v0", k: kNum})
 	g.declare(&varInfo{name: "s0", k: kStr})
 	body = append(body, &Local{Names: []string{"v0", "s0"}, Exprs: []Expr{Num{float64(t.Choose(5))}, Str{"s"}}})
 	g.nloc = 60 // prelude and padding locals of the chunk
-	for i := 0; i < n && !g.tight(); i++ {
+	// Top-level statements: each is (continue?, sub-seed) on the main tape and is generated from a private
+	// stream seeded by the sub-seed, so that the shrinker can drop a whole statement by deleting two draws
+	// and truncate the program by zeroing one.
+	for i := 0; i < p.MaxStmts+3 && !g.tight(); i++ {
+		if i >= 1 && t.Choose(p.MaxStmts/2+2) == 0 {
+			break
+		}
+		sub := &subStream{s: uint64(t.Choose(1<<30))*0x9e3779b97f4a7c15 + 1}
+		g.t = sub
 		ss := g.stmt(fc)
+		g.t = t
 		g.nloc += countLocals(ss)
 		body = append(body, ss...)
 	}
@@ -993,4 +1001,20 @@ func GenerateBodies(t Tape, p *Profile, n int) (*Program, []string) {
 	g.prog.Body = body
 	g.prog.NStmts = g.stmts
 	return g.prog, names
+}
+
+
+// subStream is a private SplitMix64 choice stream seeded from one draw of the main tape.
+type subStream struct{ s uint64 }
+
+func (r *subStream) Choose(n int) int {
+	if n <= 1 {
+		return 0
+	}
+	r.s += 0x9e3779b97f4a7c15
+	z := r.s
+	z = (z ^ (z >> 30)) * 0xbf58476d1ce4e5b9
+	z = (z ^ (z >> 27)) * 0x94d049bb133111eb
+	z ^= z >> 31
+	return int(z % uint64(n))
 }
